@@ -2,7 +2,8 @@
 SPEC = {
     'engine': 'seasmart', 'harness': 'seasmart.cpp',
     'repo_srcs': ['Seasmart.cpp', 'N2kMsg.cpp', 'N2kStream.cpp', 'N2kTimer.cpp'],
-    'lean_modules': ['N2k.Props.C19'], 'props_files': ['N2k/Props/C19.lean'],
+    'translators': ['constants'],
+    'lean_modules': ['N2k.Props.Consts.C19', 'N2k.Props.C19'], 'props_files': ['N2k/Props/Consts/C19.lean', 'N2k/Props/C19.lean'],
     'case_start': ['exp', 'imp'],
     'trusted_base': [
         "model N2k/Model/Seasmart.lean transcribes Seasmart.cpp by hand (appendByte/append2Bytes/appendWord, "
